@@ -437,4 +437,329 @@ theorem mrun_calls (c : PCfg β) (hf : c.py.fixed = true) (addr : β → Nat) :
     simp only [selCalls]
 end
 
+/-! ### the first-frame test -/
+
+/-- the events that survive `skip_first_frame && frame == first_frame` once `first_frame = F` -/
+def keepEv (F : Nat) (e : Ev (Node β)) : Bool := e.name.frame != F
+
+theorem pstep_first (c : PCfg β) (s : PSt β) (e : Ev (Node β)) (F : Nat) (hs : s.first = some F) :
+    (pstep c s e).first = some F := by
+  unfold pstep
+  split <;> simp [firstOf, hs]
+
+theorem pstep_skip (c : PCfg β) (hk : c.skipFirst = true) (s : PSt β) (e : Ev (Node β)) (F : Nat)
+    (hs : s.first = some F) (he : e.name.frame = F) : pstep c s e = s := by
+  obtain ⟨first, tree, shm, py, hkst⟩ := s
+  simp only at hs
+  subst hs
+  simp [pstep, skips, firstOf, hk, he]
+
+/-- the very first event: its frame is remembered and the event is dropped -/
+theorem pstep_init (c : PCfg β) (hk : c.skipFirst = true) (e : Ev (Node β)) :
+    pstep c (PSt.init c) e = { PSt.init c with first := some e.name.frame } := by
+  simp [pstep, skips, firstOf, hk, PSt.init]
+
+theorem prun_cons (c : PCfg β) (s : PSt β) (e : Ev (Node β)) (es : List (Ev (Node β))) :
+    prun c s (e :: es) = prun c (pstep c s e) es := rfl
+
+theorem prun_append (c : PCfg β) (s : PSt β) (a b : List (Ev (Node β))) :
+    prun c s (a ++ b) = prun c (prun c s a) b := by
+  simp [prun, List.foldl_append]
+
+/-- as coded: every event that carries the first frame's address is invisible -/
+theorem prun_filter (c : PCfg β) (hk : c.skipFirst = true) (F : Nat) : ∀ (evs : List (Ev (Node β))) (s : PSt β),
+    s.first = some F → prun c s evs = prun c s (evs.filter (keepEv F))
+  | [], _, _ => rfl
+  | e :: es, s, hs => by
+    by_cases he : e.name.frame = F
+    · have : keepEv F e = false := by simp [keepEv, he]
+      rw [List.filter_cons_of_neg (by simp [this]), prun_cons, pstep_skip c hk s e F hs he]
+      exact prun_filter c hk F es s hs
+    · have : keepEv F e = true := by simp [keepEv, he]
+      rw [List.filter_cons_of_pos this, prun_cons, prun_cons]
+      exact prun_filter c hk F es _ (pstep_first c s e F hs)
+
+/- on a forest, dropping the events of frame `F` is dropping the calls whose frame object sits
+   at `F` (and their direct C calls, which carry the caller's frame): the callees move up -/
+mutual
+theorem filter_events (F : Nat) : ∀ (t : Call (Node β)) (rest : Calls (Node β)),
+    (events t).filter (keepEv F) ++ eventsL rest = eventsL (pruneCall F t rest)
+  | .node n k kids, rest => by
+    by_cases hn : n.frame = F
+    · have h1 : keepEv F (⟨k.entry, n⟩ : Ev (Node β)) = false := by simp [keepEv, hn]
+      have h2 : keepEv F (⟨k.exit, n⟩ : Ev (Node β)) = false := by simp [keepEv, hn]
+      have hp : (n.frame == F) = true := by simp [hn]
+      simp only [events, pruneCall, hp, ↓reduceIte]
+      rw [List.filter_cons_of_neg (by simp [h1]), List.filter_append,
+        List.filter_cons_of_neg (by simp [h2])]
+      simp only [List.filter_nil, List.append_nil]
+      exact filter_eventsL F kids rest
+    · have h1 : keepEv F (⟨k.entry, n⟩ : Ev (Node β)) = true := by simp [keepEv, hn]
+      have h2 : keepEv F (⟨k.exit, n⟩ : Ev (Node β)) = true := by simp [keepEv, hn]
+      have hp : (n.frame == F) = false := by simp [hn]
+      simp only [events, pruneCall, hp]
+      rw [List.filter_cons_of_pos h1, List.filter_append, List.filter_cons_of_pos h2]
+      have := filter_eventsL F kids .nil
+      simp only [eventsL, List.append_nil] at this
+      simp [eventsL, events, this]
+theorem filter_eventsL (F : Nat) : ∀ (ts : Calls (Node β)) (rest : Calls (Node β)),
+    (eventsL ts).filter (keepEv F) ++ eventsL rest = eventsL (pruneCalls F ts rest)
+  | .nil, rest => by simp [eventsL, pruneCalls]
+  | .cons x r, rest => by
+    simp only [eventsL, pruneCalls, List.filter_append, List.append_assoc]
+    rw [filter_eventsL F r rest]
+    exact filter_events F x _
+end
+
+/-! ### the tables along a run of one process -/
+
+theorem pstep_keeps (c : PCfg β) (hc : CmpEq c.cmp) (s : PSt β) (e : Ev (Node β)) (n : β) (sym : Sym β)
+    (h : s.tree.find c.cmp n = some sym) : (pstep c s e).tree.find c.cmp n = some sym := by
+  unfold pstep
+  split
+  · exact h
+  · exact convert_keeps c.cmp hc c.py.isLib s.tree s.shm e.name.name n sym h
+
+theorem prun_keeps (c : PCfg β) (hc : CmpEq c.cmp) : ∀ (evs : List (Ev (Node β))) (s : PSt β) (n : β) (sym : Sym β),
+    s.tree.find c.cmp n = some sym → (prun c s evs).tree.find c.cmp n = some sym
+  | [], _, _, _, h => h
+  | e :: es, s, n, sym, h => prun_keeps c hc es _ n sym (pstep_keeps c hc s e n sym h)
+
+structure TabOk (c : PCfg β) (s : PSt β) : Prop where
+  shm : ShmOk s.shm
+  tree : TreeOk c.cmp c.py.isLib s.shm s.tree
+
+theorem tabOk_init (c : PCfg β) : TabOk c (PSt.init c) :=
+  ⟨shmOk_empty, treeOk_leaf _ _ _⟩
+
+theorem tabOk_pstep (c : PCfg β) (hc : CmpEq c.cmp) (s : PSt β) (e : Ev (Node β)) (h : TabOk c s) :
+    TabOk c (pstep c s e) := by
+  unfold pstep
+  split
+  · exact ⟨h.shm, h.tree⟩
+  · exact ⟨convert_shmOk _ _ _ _ _ h.shm, convert_treeOk _ hc _ _ _ _ h.tree⟩
+
+theorem tabOk_prun (c : PCfg β) (hc : CmpEq c.cmp) : ∀ (evs : List (Ev (Node β))) (s : PSt β),
+    TabOk c s → TabOk c (prun c s evs)
+  | [], _, h => h
+  | e :: es, s, h => tabOk_prun c hc es _ (tabOk_pstep c hc s e h)
+
+/-- an event that is not dropped leaves its function in the table -/
+theorem pstep_seen (c : PCfg β) (hc : CmpEq c.cmp) (s : PSt β) (e : Ev (Node β))
+    (hns : skips c s.first e.name.frame = false) :
+    ∃ sym, (pstep c s e).tree.find c.cmp e.name.name = some sym := by
+  unfold pstep
+  simp only [hns, Bool.false_eq_true, ↓reduceIte]
+  exact ⟨_, find_convert c.cmp hc c.py.isLib s.tree s.shm e.name.name⟩
+
+theorem skips_false (c : PCfg β) (F fr : Nat) (h : fr ≠ F) : skips c (some F) fr = false := by
+  have : (F == fr) = false := by simp [Ne.symm h]
+  simp [skips, firstOf, this]
+
+theorem prun_seen (c : PCfg β) (hc : CmpEq c.cmp) (F : Nat) : ∀ (evs : List (Ev (Node β))) (s : PSt β) (e : Ev (Node β)),
+    s.first = some F → e ∈ evs → e.name.frame ≠ F →
+    ∃ sym, (prun c s evs).tree.find c.cmp e.name.name = some sym
+  | [], _, _, _, h, _ => by simp at h
+  | x :: xs, s, e, hs, hm, hf => by
+    rw [prun_cons]
+    rcases List.mem_cons.mp hm with rfl | hm
+    · obtain ⟨sym, h⟩ := pstep_seen c hc s e (by rw [hs]; exact skips_false c F _ hf)
+      exact ⟨sym, prun_keeps c hc xs _ _ _ h⟩
+    · exact prun_seen c hc F xs _ e (pstep_first c s x F hs) hm hf
+
+/-- whatever the final tree says about a name resolves, through the written file, to that name -/
+theorem tab_resolves (c : PCfg β) (s : PSt β) (h : TabOk c s) (n : β) (sym : Sym β)
+    (hf : s.tree.find c.cmp n = some sym) : resolve (symFile s.shm) sym.addr = some n := by
+  obtain ⟨_, _, l, hl, ha, _, hn⟩ := h.tree n sym hf
+  rw [← ha, ← hn]
+  exact resolve_line s.shm h.shm l hl
+
+/-- two names with the same address are the same name -/
+theorem tab_injective (c : PCfg β) (s : PSt β) (h : TabOk c s) (a b : β) (sa sb : Sym β)
+    (ha : s.tree.find c.cmp a = some sa) (hb : s.tree.find c.cmp b = some sb) (e : sa.addr = sb.addr) : a = b := by
+  obtain ⟨_, _, l1, hl1, ha1, _, hn1⟩ := h.tree a sa ha
+  obtain ⟨_, _, l2, hl2, ha2, _, hn2⟩ := h.tree b sb hb
+  have := line_addr_inj s.shm h.shm l1 l2 hl1 hl2 (by rw [ha1, ha2, e])
+  rw [← hn1, ← hn2, this]
+
+/-- the hook calls of a run are those of the table-free machine with the addresses of the final
+    tree -/
+theorem prun_eq_prunA (c : PCfg β) (hc : CmpEq c.cmp) (F : Nat) (addr : β → Nat) :
+    ∀ (evs : List (Ev (Node β))) (s : PSt β), s.first = some F → (∀ e ∈ evs, e.name.frame ≠ F) →
+      (∀ n sym, (prun c s evs).tree.find c.cmp n = some sym → addr n = sym.addr) →
+      ((prun c s evs).py, (prun c s evs).hk) = prunA c addr (s.py, s.hk) evs
+  | [], _, _, _, _ => rfl
+  | e :: es, s, hs, hfr, ha => by
+    rw [prun_cons] at ha ⊢
+    have hne := hfr e (by simp)
+    have hsk : skips c s.first e.name.frame = false := by rw [hs]; exact skips_false c F _ hne
+    have ih := prun_eq_prunA c hc F addr es (pstep c s e) (pstep_first c s e F hs)
+      (fun x hx => hfr x (by simp [hx])) ha
+    rw [ih]
+    have hfind : (pstep c s e).tree.find c.cmp e.name.name =
+        some (convert c.cmp c.py.isLib s.tree s.shm e.name.name).2.2 := by
+      unfold pstep
+      simp only [hsk, Bool.false_eq_true, ↓reduceIte]
+      exact find_convert c.cmp hc c.py.isLib s.tree s.shm e.name.name
+    have haddr := ha _ _ (prun_keeps c hc es _ _ _ hfind)
+    have hstep : ((pstep c s e).py, (pstep c s e).hk) = pstepA c addr (s.py, s.hk) e := by
+      unfold pstep pstepA
+      simp only [hsk, Bool.false_eq_true, ↓reduceIte, haddr]
+    simp only [prunA, List.foldl]
+    rw [hstep]
+
+/-! ### the clock -/
+mutual
+  /-- libmcount reads 0 as "still running": no call ends at clock reading 0 -/
+  def ClockOk : Call (Node β) → Prop
+    | .node n _ kids => n.t1 ≠ 0 ∧ ClockOkL kids
+  def ClockOkL : Calls (Node β) → Prop
+    | .nil => True
+    | .cons x r => ClockOk x ∧ ClockOkL r
+end
+
+mutual
+theorem selCall_okFor (cfg : Uft.Mcount.Cfg) (hs4 : cfg.s4fixed = true) (c : Cfg (Node β)) (addr : β → Nat) :
+    ∀ (t : Call (Node β)) (a b : Bool) (ld : Nat) (rest : Uft.Mcount.Calls), ClockOk t → rest.okFor cfg →
+      (selCall c addr a b ld t rest).okFor cfg
+  | .node n k kids, a, b, ld, rest, ht, hr => by
+    simp only [ClockOk] at ht
+    simp only [selCall]
+    split
+    · simp only [Uft.Mcount.Calls.okFor, Uft.Mcount.Call.okFor]
+      exact ⟨⟨⟨Uft.Mcount.durOk_fixed cfg hs4 _, ht.1⟩, selCalls_okFor cfg hs4 c addr kids _ _ _ .nil ht.2 trivial⟩, hr⟩
+    · exact selCalls_okFor cfg hs4 c addr kids _ _ _ rest ht.2 hr
+theorem selCalls_okFor (cfg : Uft.Mcount.Cfg) (hs4 : cfg.s4fixed = true) (c : Cfg (Node β)) (addr : β → Nat) :
+    ∀ (ts : Calls (Node β)) (a b : Bool) (ld : Nat) (rest : Uft.Mcount.Calls), ClockOkL ts → rest.okFor cfg →
+      (selCalls c addr a b ld ts rest).okFor cfg
+  | .nil, _, _, _, rest, _, hr => by simpa [selCalls] using hr
+  | .cons x r, a, b, ld, rest, ht, hr => by
+    simp only [ClockOkL] at ht
+    simp only [selCalls]
+    exact selCall_okFor cfg hs4 c addr x a b ld _ ht.1 (selCalls_okFor cfg hs4 c addr r a b ld rest ht.2 hr)
+end
+
+/- the eager trace of a selection followed by `rest` -/
+mutual
+theorem evB_selCall (c : Cfg (Node β)) (addr : β → Nat) : ∀ (t : Call (Node β)) (a b : Bool) (ld d bd : Nat)
+    (rest : Uft.Mcount.Calls),
+    Uft.Mcount.evCallsB d bd (selCall c addr a b ld t rest) =
+      Uft.Mcount.evCallsB d bd (selCall c addr a b ld t .nil) ++ Uft.Mcount.evCallsB d bd rest
+  | .node n k kids, a, b, ld, d, bd, rest => by
+    simp only [selCall]
+    split
+    · simp [Uft.Mcount.evCallsB]
+    · exact evB_selCalls c addr kids _ _ _ d bd rest
+theorem evB_selCalls (c : Cfg (Node β)) (addr : β → Nat) : ∀ (ts : Calls (Node β)) (a b : Bool) (ld d bd : Nat)
+    (rest : Uft.Mcount.Calls),
+    Uft.Mcount.evCallsB d bd (selCalls c addr a b ld ts rest) =
+      Uft.Mcount.evCallsB d bd (selCalls c addr a b ld ts .nil) ++ Uft.Mcount.evCallsB d bd rest
+  | .nil, _, _, _, d, bd, rest => by simp [selCalls, Uft.Mcount.evCallsB]
+  | .cons x r, a, b, ld, d, bd, rest => by
+    simp only [selCalls]
+    rw [evB_selCall c addr x a b ld d bd (selCalls c addr a b ld r rest),
+      evB_selCall c addr x a b ld d bd (selCalls c addr a b ld r .nil),
+      evB_selCalls c addr r a b ld d bd rest]
+    simp
+end
+
+/-! ### a whole run: program forest, then lone exits with whatever runs after each -/
+
+theorem liftCfg_flist_none (c : Cfg β) (n : Node β) :
+    firstMatch (liftCfg c).flist n = firstMatch c.flist n.name := by
+  unfold liftCfg Cfg.flist
+  cases c.filters with
+  | none => rfl
+  | some fs =>
+    simp only [Option.map]
+    induction fs with
+    | nil => rfl
+    | cons f fs ih => simp [firstMatch, ih]
+
+/-- a lone exit event at program level (all counters 0, a function no filter names): the
+    counters stay 0 (the clamp of `libcall_count`) -/
+theorem stepSt_stray (c : Cfg (Node β)) (n : Node β) (k : CKind) (hm : firstMatch c.flist n = none) :
+    stepSt c St.init ⟨k.exit, n⟩ = St.init := by
+  cases hg : c.gmode <;> cases hlm : c.lmode <;> cases hl : c.isLib n <;>
+    simp [stepSt, reaches, skipDecision, cinAfter, coutAfter, libAfter, St.init, hm, hg, hlm, hl]
+
+/-- … and at most one hook call is made, an exit -/
+theorem stepOut_stray (c : Cfg (Node β)) (s : St) (n : Node β) (k : CKind) :
+    stepOut c s ⟨k.exit, n⟩ = [] ∨ stepOut c s ⟨k.exit, n⟩ = [.exit] := by
+  unfold stepOut
+  split <;> simp
+
+/-- with nothing on libmcount's stack: nothing changes -/
+theorem mstep_stray (c : PCfg β) (addr : β → Nat) (n : Node β) (k : CKind) (m : Uft.Mcount.St)
+    (hm : firstMatch (liftCfg c.py).flist n = none) (hidx : m.idx = 0) :
+    mstepA c addr (St.init, m) ⟨k.exit, n⟩ = (St.init, m) := by
+  unfold mstepA
+  simp only [stepSt_stray (liftCfg c.py) n k hm]
+  rcases stepOut_stray (liftCfg c.py) St.init n k with h2 | h2
+  · simp [h2]
+  · simp [h2, mOut, exit_idx_zero _ _ _ hidx]
+
+theorem goodW_idx (m : Uft.Mcount.St) (h : Uft.Mcount.GoodW m 0) : m.idx = 0 := by
+  have h1 := h.good.over
+  have h2 := h.good.len
+  simp [Uft.Mcount.St.idx, h1, h2]
+
+theorem progEvents_cons {α : Type} (f0 : Calls α) (k : CKind) (n : α) (f1 : Calls α)
+    (r : List (CKind × α × Calls α)) :
+    progEvents f0 ((k, n, f1) :: r) = eventsL f0 ++ (⟨k.exit, n⟩ :: progEvents f1 r) := by
+  simp [progEvents, tailEvents]
+
+theorem selProg_cons (c : Cfg (Node β)) (addr : β → Nat) (f0 : Calls (Node β)) (x : CKind × Node β × Calls (Node β))
+    (r : List (CKind × Node β × Calls (Node β))) :
+    selProg c addr f0 (x :: r) = selCalls c addr false false 0 f0 (selProg c addr x.2.2 r) := by
+  simp [selProg]
+
+/-- the libmcount state after a whole run, from a state between hooks at depth 0 -/
+theorem mrun_prog (c : PCfg β) (hf : c.py.fixed = true) (hp : Uft.Mcount.Plain c.hk.m) (hs4 : c.hk.m.s4fixed = true)
+    (hdo : c.hk.m.maxStack ≤ c.hk.m.depthOpt) (addr : β → Nat) :
+    ∀ (tl : List (CKind × Node β × Calls (Node β))) (f0 : Calls (Node β)) (m : Uft.Mcount.St),
+      Uft.Mcount.GoodW m 0 → ClockOkL f0 → (∀ x ∈ tl, ClockOkL x.2.2) →
+      (∀ x ∈ tl, firstMatch (liftCfg c.py).flist x.2.1 = none) →
+      (mrunA c addr (St.init, m) (progEvents f0 tl)).1 = St.init ∧
+      Uft.Mcount.eager (mrunA c addr (St.init, m) (progEvents f0 tl)).2 =
+        Uft.Mcount.eager m ++ Uft.Mcount.evCallsB 0 c.hk.m.maxStack (selProg (liftCfg c.py) addr f0 tl) ∧
+      Uft.Mcount.GoodW (mrunA c addr (St.init, m) (progEvents f0 tl)).2 0
+  | [], f0, m, hg, hck, _, _ => by
+    obtain ⟨h1, h2⟩ := mrun_calls c hf addr f0 St.init m (wf_init _)
+    have h2' := h2 .nil
+    simp only [Uft.Mcount.runCalls] at h2'
+    have hok := selCalls_okFor c.hk.m hs4 (liftCfg c.py) addr f0 false false 0 .nil hck trivial
+    obtain ⟨o1, _, o3⟩ := Uft.Mcount.over_calls c.hk.m hp .cyg hdo _ m 0 hg (Nat.zero_le _) hok
+    have he : progEvents f0 [] = eventsL f0 := by simp [progEvents, tailEvents]
+    have hA : envA St.init = false := by simp [envA, St.init]
+    have hB : envB St.init = false := by simp [envB, St.init]
+    have hL : envL St.init = 0 := by simp [envL, St.init]
+    rw [hA, hB, hL] at h2'
+    rw [he, h2']
+    refine ⟨h1, ?_, o3⟩
+    simpa [selProg] using o1
+  | (k, n, f1) :: r, f0, m, hg, hck, hcl, hnm => by
+    obtain ⟨h1, h2⟩ := mrun_calls c hf addr f0 St.init m (wf_init _)
+    have h2' := h2 .nil
+    simp only [Uft.Mcount.runCalls] at h2'
+    have hA : envA St.init = false := by simp [envA, St.init]
+    have hB : envB St.init = false := by simp [envB, St.init]
+    have hL : envL St.init = 0 := by simp [envL, St.init]
+    rw [hA, hB, hL] at h2'
+    have hok := selCalls_okFor c.hk.m hs4 (liftCfg c.py) addr f0 false false 0 .nil hck trivial
+    obtain ⟨o1, _, o3⟩ := Uft.Mcount.over_calls c.hk.m hp .cyg hdo _ m 0 hg (Nat.zero_le _) hok
+    rw [progEvents_cons, mrunA_append, mrunA_cons]
+    generalize hM : mrunA c addr (St.init, m) (eventsL f0) = M at h1 h2'
+    obtain ⟨M1, M2⟩ := M
+    simp only at h1 h2'
+    subst h1
+    rw [← h2'] at o1 o3
+    rw [mstep_stray c addr n k M2 (hnm (k, n, f1) (by simp)) (goodW_idx M2 o3)]
+    obtain ⟨i1, i2, i3⟩ := mrun_prog c hf hp hs4 hdo addr r f1 M2 o3 (hcl (k, n, f1) (by simp))
+      (fun x hx => hcl x (by simp [hx])) (fun x hx => hnm x (by simp [hx]))
+    refine ⟨i1, ?_, i3⟩
+    rw [i2, o1, selProg_cons,
+      evB_selCalls (liftCfg c.py) addr f0 false false 0 0 c.hk.m.maxStack (selProg (liftCfg c.py) addr f1 r)]
+    simp
+
 end Uft.PyHook
